@@ -173,6 +173,17 @@ check('C09',
       'Trusted: the reference semantics typed from the class docstrings in vf/props/c09.py; vf/sim.py recorder.',
       'DESIGN.md 7 C09')
 
+check('C05',
+      'property-based testing (Hypothesis): every loadable stock dynamic case plus generated variants (devices offline, '
+      'machines split with consistent / inconsistent split factors, limits below the operating point); oracle: verdict '
+      'consistency (test_ok iff recomputed residuals < tol, failure raises the exit code), success under harness-evaluated '
+      'preconditions, bus voltages bitwise equal to the power flow, dynamic injections equal the static generator\'s '
+      'power, static generator switched off, undisturbed 1 s run stays put; coverage table of model classes',
+      'Invariant checking over generated model combinations; the undisturbed run is the independent witness of equilibrium.',
+      'Trusted: the routine\'s residual evaluation for the verdict-consistency clause (a different code path than test_init), '
+      'preconditions evaluated by the harness (limiter flags, split factors, InitCheckers, islands, online references).',
+      'DESIGN.md 7 C05')
+
 NOT_BUILT = 'check not built yet in this round (machinery in progress; see DESIGN.md section 10 build order)'
 ALL = ['C%02d' % i for i in range(1, 21)]
 
